@@ -340,13 +340,34 @@ def enum_tag_bijection(ctx, prog, rule):
             d = strip(R.place(dl)) if dl else None
             if d and d[0] == "discr" and self_field(d[1]) == "format":
                 for v, tgt in t["targets"]:
-                    # first call in that arm
+                    # first call reached from that arm; the tag is a literal at the call or a literal the arm assigned
+                    # (`let tag = match format { Png => "pngImage", .. }; data.xml_string(tag)`)
                     b = tgt
-                    for _ in range(3):
+                    env = {}
+                    for _ in range(6):
+                        for st in f.blocks[b]["stmts"]:
+                            if st["place"]["proj"]:
+                                continue
+                            rv = st["rv"]
+                            if rv["k"] == "use" and rv["op"]["k"] == "const":
+                                cv = strip(R.operand(rv["op"]))
+                                env[st["place"]["local"]] = cv[2] if cv[0] == "const" else None
+                            elif rv["k"] in ("use", "ref", "cast"):
+                                pl_ = op_place(rv["op"]) if rv["k"] == "use" else (rv.get("place") if rv["k"] == "ref" else op_place(rv["a"]))
+                                pl_ok = pl_ is not None and all(e["k"] == "deref" for e in pl_["proj"])
+                                env[st["place"]["local"]] = env.get(pl_["local"]) if pl_ok and pl_["local"] in env else None
+                                if not (pl_ok and pl_["local"] in env):
+                                    env.pop(st["place"]["local"], None)
+                            else:
+                                env.pop(st["place"]["local"], None)
                         tt = f.blocks[b]["term"]
                         if tt["k"] == "call" and callee_of(tt) == "blob::Blob::xml_string":
                             tag = strip(R.operand(tt["args"][1]))
-                            w[names[int(v)]] = tag[2] if tag[0] == "const" else None
+                            apl = op_place(tt["args"][1])
+                            if apl is not None and apl["local"] in env and all(e["k"] == "deref" for e in apl["proj"]):
+                                w[names[int(v)]] = env[apl["local"]]
+                            else:
+                                w[names[int(v)]] = tag[2] if tag[0] == "const" else None
                             break
                         if tt["k"] == "goto":
                             b = tt["target"]
